@@ -26,11 +26,15 @@ def expr_type(e, env, fns):
     if k == "un": return "bool" if e[1] == "!" else expr_type(e[2], env, fns)
     if k == "cast": return e[2]
     if k == "call": return fns[e[1]][1]
+    if k == "slit": return "S%d" % e[1]
+    if k == "field":
+        bt = expr_type(e[1], env, fns)
+        return core.fields_of(bt)[e[2]] if bt and core.is_struct(bt) else None
     return None
 
 def has_typed_leaf(e):
     k = e[0]
-    if k in ("var", "call", "cast"): return True
+    if k in ("var", "call", "cast", "field"): return True
     if k == "bin" and e[1] in core.ARITH: return has_typed_leaf(e[2]) or has_typed_leaf(e[3])
     if k == "un": return has_typed_leaf(e[2])
     return False
@@ -57,6 +61,9 @@ def collect_sites(prog):
         elif k == "cast": walk_expr(e, 1, env, ctx + ("cast",), fi, ret)
         elif k == "call":
             for i in range(len(e[2])): walk_expr(e[2], i, env, ctx + ("arg",), fi, ret)
+        elif k == "slit":
+            for i in range(len(e[2])): walk_expr(e[2], i, env, ctx + ("field-init",), fi, ret)
+        elif k == "field": walk_expr(e, 1, env, ctx + ("field-base",), fi, ret)
     def walk_block(b, env, ctx, fi, ret):
         env = dict(env)
         for i in range(len(b)):
@@ -67,6 +74,8 @@ def collect_sites(prog):
                 walk_expr(s, 3, env, ctx + ("let-init",), fi, ret); env[s[1]] = s[2]
             elif k == "assign": walk_expr(s, 2, env, ctx + ("assign-rhs",), fi, ret)
             elif k == "cassign": walk_expr(s, 3, env, ctx + ("compound-rhs",), fi, ret)
+            elif k == "assignf": walk_expr(s, 3, env, ctx + ("field-assign-rhs",), fi, ret)
+            elif k == "cassignf": walk_expr(s, 4, env, ctx + ("field-compound-rhs",), fi, ret)
             elif k == "if":
                 walk_expr(s, 1, env, ctx + ("if-cond",), fi, ret)
                 walk_block(s[2], env, ctx + ("then",), fi, ret); walk_block(s[3], env, ctx + ("else",), fi, ret)
@@ -97,6 +106,8 @@ def mutable(prog):
         elif e[0] == "un": e[2] = me(e[2])
         elif e[0] == "cast": e[1] = me(e[1])
         elif e[0] == "call": e[2] = [me(a) for a in e[2]]
+        elif e[0] == "slit": e[2] = [me(a) for a in e[2]]
+        elif e[0] == "field": e[1] = me(e[1])
         return e
     def mb(b): return [ms(s) for s in b]
     def ms(s):
@@ -105,6 +116,8 @@ def mutable(prog):
         if k == "let": s[3] = me(s[3])
         elif k == "assign": s[2] = me(s[2])
         elif k == "cassign": s[3] = me(s[3])
+        elif k == "assignf": s[3] = me(s[3])
+        elif k == "cassignf": s[4] = me(s[4])
         elif k == "if": s[1] = me(s[1]); s[2] = mb(s[2]); s[3] = mb(s[3])
         elif k == "while": s[1] = me(s[1]); s[2] = mb(s[2])
         elif k == "for": s[3] = me(s[3]); s[4] = me(s[4]); s[5] = mb(s[5])
@@ -237,6 +250,64 @@ def inject(prog, cls, rng):
         for s in ssites:
             if s.ret == "void" and s.get()[0] in ("print", "assign"):
                 s.holder.insert(s.idx, ["if", ["bool", False], [["return", ["lit", "i32", 1]]], []]); return m, s.ctx + ("return",)
+    if cls == "struct-unknown-field":
+        for s in esites:
+            e = s.get()
+            if e[0] == "field":
+                bt = expr_type(e[1], s.env, fns)
+                if bt and core.is_struct(bt):
+                    e[2] = len(core.fields_of(bt)); return m, s.ctx + ("field-read",)
+        for s in ssites:
+            st = s.get()
+            if st[0] == "assignf":
+                st[2] = len(core.fields_of(s.env[st[1]])); return m, s.ctx + ("field-assign",)
+    if cls == "struct-missing-field":
+        for s in esites:
+            e = s.get()
+            if e[0] == "slit" and len(e[2]) > 0:
+                e[2].pop(); return m, s.ctx + ("struct-literal",)
+    if cls == "struct-extra-field":
+        for s in esites:
+            e = s.get()
+            if e[0] == "slit":
+                e[2].append(["lit", "i32", 1]); return m, s.ctx + ("struct-literal",)
+    if cls == "struct-mistyped-field":
+        cands = []
+        for s in esites:
+            e = s.get()
+            if e[0] == "slit":
+                for i, ft in enumerate(core.STRUCTS[e[1]]):
+                    cands.append(("init", s, e, i, ft))
+        for s in ssites:
+            st = s.get()
+            if st[0] == "assignf":
+                cands.append(("assign", s, st, None, core.fields_of(s.env[st[1]])[st[2]]))
+        rng.shuffle(cands)
+        for kind, s, node, i, ft in cands:
+            x = var_of_type(s.env, lambda u: u == "bool" or (u in core.ITYS and ft in NARROWER[u]) or (core.is_struct(u) and rng.random() < 0.3), rng)
+            if x is None: continue
+            if kind == "init":
+                node[2][i] = ["var", x]; return m, s.ctx + ("struct-literal",)
+            node[3] = ["var", x]; return m, s.ctx + ("field-assign",)
+    if cls == "struct-type-mismatch":
+        for s in ssites:
+            st = s.get()
+            if st[0] == "let" and core.is_struct(st[2]):
+                x = var_of_type(s.env, lambda u: u != st[2], rng)
+                if x is not None:
+                    st[3] = ["var", x]; return m, s.ctx + ("let",)
+            if st[0] == "assign" and core.is_struct(s.env.get(st[1]) or ""):
+                t = s.env[st[1]]
+                x = var_of_type(s.env, lambda u: u != t, rng)
+                if x is not None:
+                    st[2] = ["var", x]; return m, s.ctx + ("assign",)
+    if cls == "field-of-non-struct":
+        for s in esites:
+            e = s.get()
+            if e[0] == "field" and e[1][0] == "var":
+                x = var_of_type(s.env, lambda u: u in core.ITYS or u == "bool", rng)
+                if x is not None:
+                    e[1] = ["var", x]; return m, s.ctx + ("field-read",)
     if cls == "call-non-function":
         for s in esites:
             e = s.get()
@@ -248,7 +319,9 @@ def inject(prog, cls, rng):
 
 CLASSES = ["mixed-operands", "implicit-narrowing", "nonbool-condition", "nonbool-logical", "arity-missing", "arity-extra",
            "arg-type", "undefined-name", "redeclared", "wrong-return-type", "missing-return-value", "return-value-in-void",
-           "call-non-function", "nonbool-logical-literal", "nonbool-condition-literal"]
+           "call-non-function", "nonbool-logical-literal", "nonbool-condition-literal",
+           "struct-unknown-field", "struct-missing-field", "struct-extra-field", "struct-mistyped-field", "struct-type-mismatch",
+           "field-of-non-struct"]
 # "arith-bool-operand" (`10 - true`, untyped literal with a bool/str operand) is accepted by the unchanged compiler, but arithmetic on
 # non-numeric operands is not in the property's catalogue: the class is implemented above and deliberately NOT enabled.
 
@@ -317,10 +390,11 @@ def reference_rejects(name, muts, shard=300):
     shards = [ids[i:i + shard] for i in range(0, len(ids), shard)]
     def one(k):
         v = ["From Coq Require Import ZArith List.", "From FV Require Import Core.Syntax Core.Typing.", "Import ListNotations.",
+             "Definition structs : structs_t := %s." % core.structs_coq(),
              "Definition cases : list (Z * prog) := ["]
         v.append(";\n".join("(%d%%Z, %s)" % (i, core.to_coq(muts[i])) for i in shards[k]))
         v.append("].")
-        v.append("Definition acc := Eval vm_compute in map fst (filter (fun c => accepts (snd c)) cases).")
+        v.append("Definition acc := Eval vm_compute in map fst (filter (fun c => accepts structs (snd c)) cases).")
         v.append("Eval vm_compute in acc.")
         ok, out = common.coq_eval("%s_%d" % (name, k), "\n".join(v) + "\n", timeout=900)
         if not ok: raise RuntimeError("coq_eval failed:\n" + out[-2000:])
@@ -348,7 +422,7 @@ def main(run):
             run.count("base-rejected-by-compiler")   # reported by C01, not here
             continue
         for cls in CLASSES:
-            for _ in range(per if cls in ("mixed-operands", "implicit-narrowing", "arg-type") else 1):
+            for _ in range(per if cls in ("mixed-operands", "implicit-narrowing", "arg-type", "struct-mistyped-field") else 1):
                 r = inject(p, cls, run.rng)
                 if r is None:
                     run.count("n/a:" + cls); continue
